@@ -189,6 +189,55 @@ theorem scaled_nil (k : ℝ) : Scaled k [] [] := by
   intro ind
   simp
 
+/-- what `InitModel` stores for a well-formed alignment whose residues all have a code -/
+noncomputable def initOf (c : Cfg ℝ) (rows : List Seq) : Init ℝ :=
+  ⟨selectedSites rows c.rmGaps, rows.map fun r => r.map codeOf, piOf c rows c.weights⟩
+
+theorem allOk_of_colEquiv (ws ws' : Option (List ℝ)) (rows rows' : List Seq) (k : ℝ)
+    (hwf : WF rows ws) (hwf' : WF rows' ws') (heq : ColEquiv k (colsOf rows' ws') (colsOf rows ws)) :
+    rows'.all (fun r => r.all okByte) = rows.all (fun r => r.all okByte) := by
+  rw [allOk_iff_cols rows' ws' hwf'.rect, allOk_iff_cols rows ws hwf.rect, Bool.eq_iff_iff]
+  simp only [List.all_eq_true]
+  constructor
+  · intro h cl hcl
+    obtain ⟨cl', hcl', hfst⟩ := List.mem_map.mp ((heq.1 cl.1).mpr (List.mem_map.mpr ⟨cl, hcl, rfl⟩))
+    rw [← hfst]; exact h cl' hcl'
+  · intro h cl hcl
+    obtain ⟨cl', hcl', hfst⟩ := List.mem_map.mp ((heq.1 cl.1).mp (List.mem_map.mpr ⟨cl, hcl, rfl⟩))
+    rw [← hfst]; exact h cl' hcl'
+
+/-- **pair level**: same column contents with `k` times the weight each ⇒ every estimator is unchanged
+and the raw distance is multiplied by `k` -/
+theorem pair_of_colEquiv (c : Cfg ℝ) (ws' : Option (List ℝ)) (rows rows' : List Seq) (k : ℝ) (hk : k ≠ 0)
+    (hwf : WF rows c.weights) (hwf' : WF rows' ws') (hn : rows'.length = rows.length)
+    (hint : usesInternalGaps c.model c.gapMode = false)
+    (heq : ColEquiv k (colsOf rows' ws') (colsOf rows c.weights)) (i j : Nat) :
+    distance { c with weights := ws' } (initOf { c with weights := ws' } rows')
+        ((initOf { c with weights := ws' } rows').codes.getD i []) ((initOf { c with weights := ws' } rows').codes.getD j [])
+      = if c.model = .raw then
+          (distance c (initOf c rows) ((initOf c rows).codes.getD i []) ((initOf c rows).codes.getD j [])).map (k * ·)
+        else distance c (initOf c rows) ((initOf c rows).codes.getD i []) ((initOf c rows).codes.getD j []) := by
+  have hpi : piOf { c with weights := ws' } rows' ws' = piOf c rows c.weights := by
+    unfold piOf
+    simp only
+    split
+    · rw [probaNt_eq_cols, probaNt_eq_cols, tot_of_colWeight _ k _ _ heq.2, normV_smul k hk]
+    · rfl
+  have hsc : Scaled k
+      (sites ((rows'.map fun r => r.map codeOf).getD i []) ((rows'.map fun r => r.map codeOf).getD j [])
+        (selectedSites rows' c.rmGaps) ws')
+      (sites ((rows.map fun r => r.map codeOf).getD i []) ((rows.map fun r => r.map codeOf).getD j [])
+        (selectedSites rows c.rmGaps) c.weights) := by
+    by_cases hij : i < rows.length ∧ j < rows.length
+    · rw [sites_eq_cols rows' ws' hwf' c.rmGaps i j (hn ▸ hij.1) (hn ▸ hij.2),
+        sites_eq_cols rows c.weights hwf c.rmGaps i j hij.1 hij.2]
+      intro ind
+      rw [wsum_cols, wsum_cols, tot_of_colWeight _ k _ _ heq.2, smul_eq_mul]
+    · rw [sites_out_of_range _ _ _ i j (by simpa [hn] using hij),
+        sites_out_of_range _ _ _ i j (by simpa using hij)]
+      exact scaled_nil k
+  exact distance_scaled c ws' (initOf c rows) (initOf { c with weights := ws' } rows') _ _ _ _ k hk hint hpi hsc
+
 /-- **master theorem**: the distance matrix depends on the alignment only through the weight of every
 column content, up to a common factor `k ≠ 0` (`k = 1` for `rawdist`) -/
 theorem distMatrix_of_colEquiv (c : Cfg ℝ) (ws' : Option (List ℝ)) (rows rows' : List Seq) (k : ℝ) (hk : k ≠ 0)
@@ -197,47 +246,15 @@ theorem distMatrix_of_colEquiv (c : Cfg ℝ) (ws' : Option (List ℝ)) (rows row
     (heq : ColEquiv k (colsOf rows' ws') (colsOf rows c.weights)) (a b cc d : Int) :
     distMatrix { c with weights := ws' } rows' a b cc d = distMatrix c rows a b cc d := by
   apply distMatrix_congr c { c with weights := ws' } rows rows' a b cc d rfl hn
-  rw [initModel_eq, initModel_eq]
-  have hok : rows'.all (fun r => r.all okByte) = rows.all (fun r => r.all okByte) := by
-    rw [allOk_iff_cols rows' ws' hwf'.rect, allOk_iff_cols rows c.weights hwf.rect, Bool.eq_iff_iff]
-    simp only [List.all_eq_true]
-    constructor
-    · intro h cl hcl
-      obtain ⟨cl', hcl', hfst⟩ := List.mem_map.mp ((heq.1 cl.1).mpr (List.mem_map.mpr ⟨cl, hcl, rfl⟩))
-      rw [← hfst]; exact h cl' hcl'
-    · intro h cl hcl
-      obtain ⟨cl', hcl', hfst⟩ := List.mem_map.mp ((heq.1 cl.1).mp (List.mem_map.mpr ⟨cl, hcl, rfl⟩))
-      rw [← hfst]; exact h cl' hcl'
-  rw [hok]
+  rw [initModel_eq, initModel_eq, allOk_of_colEquiv c.weights ws' rows rows' k hwf hwf' heq]
   by_cases hall : rows.all (fun r => r.all okByte) = true
   · simp only [hall, if_true]
     intro i j
-    have hpi : piOf { c with weights := ws' } rows' ws' = piOf c rows c.weights := by
-      unfold piOf
-      simp only
-      split
-      · rw [probaNt_eq_cols, probaNt_eq_cols, tot_of_colWeight _ k _ _ heq.2, normV_smul k hk]
-      · rfl
-    have hsc : Scaled k
-        (sites ((rows'.map fun r => r.map codeOf).getD i []) ((rows'.map fun r => r.map codeOf).getD j [])
-          (selectedSites rows' c.rmGaps) ws')
-        (sites ((rows.map fun r => r.map codeOf).getD i []) ((rows.map fun r => r.map codeOf).getD j [])
-          (selectedSites rows c.rmGaps) c.weights) := by
-      by_cases hij : i < rows.length ∧ j < rows.length
-      · rw [sites_eq_cols rows' ws' hwf' c.rmGaps i j (hn ▸ hij.1) (hn ▸ hij.2),
-          sites_eq_cols rows c.weights hwf c.rmGaps i j hij.1 hij.2]
-        intro ind
-        rw [wsum_cols, wsum_cols, tot_of_colWeight _ k _ _ heq.2, smul_eq_mul]
-      · rw [sites_out_of_range _ _ _ i j (by simpa [hn] using hij),
-          sites_out_of_range _ _ _ i j (by simpa using hij)]
-        exact scaled_nil k
-    have := distance_scaled c ws'
-      ⟨selectedSites rows c.rmGaps, rows.map fun r => r.map codeOf, piOf c rows c.weights⟩
-      ⟨selectedSites rows' c.rmGaps, rows'.map fun r => r.map codeOf, piOf { c with weights := ws' } rows' ws'⟩
-      _ _ _ _ k hk hint hpi hsc
-    refine this.trans ?_
+    refine (pair_of_colEquiv c ws' rows rows' k hk hwf hwf' hn hint heq i j).trans ?_
     by_cases hm : c.model = .raw
     · rw [if_pos hm, hraw hm]
-      simp
+      simp only [one_mul, Option.map_id']
+      rfl
     · rw [if_neg hm]
+      rfl
   · simp only [hall, Bool.false_eq_true, if_false]
